@@ -156,6 +156,63 @@ def strategy(tier):
     return histories()
 
 
+def enumerate_cases(tier, seed):
+    # instances built on a space that was never looked at (no cells, namespace never read): every kind of change
+    # that reaches that space - directly or through its own base - shows in the instance
+    for chosen in ("formula_base", "own"):
+        for edit in ("del_base_ref", "set_base_ref", "new_base_ref", "remove_bases", "del_own_ref", "set_own_ref"):
+            for touched in (False, True):
+                yield {"kind": "bare_base", "chosen": chosen, "edit": edit, "touched": touched, "ops": []}
+
+
+def run_bare_base(case, out):
+    reset_session()
+    m = mx.new_model("B")
+    A = m.new_space("A")
+    A.k = 1
+    B = m.new_space("B", bases=A)
+    B.own = 10
+    if case["chosen"] == "formula_base":
+        P = m.new_space("P", formula="lambda x: {'base': Base}")
+        P.Base = B
+    else:
+        P = B
+        B.formula = "lambda x: None"
+    if case["touched"]:
+        B.k             # the namespace of the base space has been read once
+    h = P[1]
+    edit = case["edit"]
+    if edit == "del_base_ref":
+        del A.k
+    elif edit == "set_base_ref":
+        A.k = 5
+    elif edit == "new_base_ref":
+        A.j = 7
+    elif edit == "remove_bases":
+        B.remove_bases(A)
+    elif edit == "del_own_ref":
+        del B.own
+    else:
+        B.own = 11
+    inst = P[1]
+    for n in ("k", "j", "own"):
+        want = (n in B.refs, B.refs[n] if n in B.refs else None)
+        got = (n in inst.refs, inst.refs[n] if n in inst.refs else None)
+        if got != want:
+            return out.fail("instance-reference", "%s base, %s, base %s: reference %r in the instance: %r, in the "
+                            "space it is built on: %r" % (case["chosen"], edit, "read before" if case["touched"] else
+                                                          "never read", n, got, want))
+    try:
+        ok = h is inst or not h._is_valid()
+    except Exception:
+        ok = True
+    if not ok:
+        return out.fail("stale-handle", "the earlier handle still works but is not the instance registered now")
+    out.nontrivial = True
+    out.label("bare_base")
+    return out
+
+
 # ----------------------------------------------------------------------------
 
 def tick_id(rm, elem):
@@ -179,6 +236,8 @@ def item_keys(real, rm):
 
 def run_case(case):
     out = Outcome()
+    if case.get("kind") == "bare_base":
+        return run_bare_base(case, out)
     reset_session()
     real = Real()
     rm = R.RModel()
